@@ -103,3 +103,200 @@ Proof.
            exists [WError [c_ErrorCodeMessageMalformed]]. split; [rewrite He; reflexivity | right; eexists; reflexivity].
         -- split; [reflexivity|]. split; [|reflexivity]. exists []. rewrite He, app_nil_r. auto.
 Qed.
+
+(* ---------------- C03 / C18: Send ---------------- *)
+Definition is_error_reply (w : wire) : Prop := exists code, w = WError [code].
+
+(* Send while the peer has ended the session: nothing is emitted but pending error replies, the call fails,
+   the state does not change *)
+Theorem send_finished_refuses now c t :
+  isOTREnabled (c_policies c) = true -> c_msgState c = c_finished ->
+  let '(c', r) := step now c (CSend t) in
+  r_out r = c_injections c /\ r_err r = 1 /\ c' = c <| c_injections := [] |>.
+Proof.
+  intros Hp Hs. unfold step, send. msimpl. rewrite Hp, Hs. cbn [negb].
+  change (c_finished =? c_plainText) with false. change (c_finished =? c_encrypted) with false. msimpl.
+  unfold finishSend, withInjects. msimpl. cbn [r_out r_err]. repeat split.
+Qed.
+
+(* Send in plaintext under require-encryption: only a query message goes out, the text is queued *)
+Theorem send_require_encryption_queues now c t :
+  isOTREnabled (c_policies c) = true -> c_msgState c = c_plainText -> has (c_policies c) c_requireEncryption = true ->
+  let '(c', r) := step now c (CSend t) in
+  r_out r = queryMessage c :: c_injections c /\ r_err r = 0 /\
+  c_resendMsgs c' = c_resendMsgs c ++ [t] /\ c_mayRetransmit c' = c_retransmitExact /\ c_msgState c' = c_plainText.
+Proof.
+  intros Hp Hs Hr. unfold step, send. msimpl. rewrite Hp, Hs. cbn [negb].
+  change (c_plainText =? c_plainText) with true. msimpl. rewrite Hr. msimpl.
+  unfold updateLastSent, finishSend, withInjects. msimpl. cbn [r_out r_err].
+  destruct c; cbn in *. repeat split; assumption.
+Qed.
+
+(* messageHeader never touches the key context, the message state, the pending replies or the resend state *)
+Lemma messageHeader_frame c ev : let '(h, c', ev') := messageHeader c ev in
+  c_keys c' = c_keys c /\ c_msgState c' = c_msgState c /\ c_injections c' = c_injections c /\ ev' = ev /\
+  c_errHandler c' = c_errHandler c /\ c_policies c' = c_policies c.
+Proof.
+  unfold messageHeader, generateInstanceTag, fresh, draw. msimpl.
+  destruct (c_version c =? 3); msimpl; [|repeat split].
+  destruct (negb (c_ourTag c =? 0)); msimpl; repeat split.
+Qed.
+
+(* Send while encrypted: the only message that carries the text is a data message whose payload is
+   encrypted and authenticated under the sending key of the current DH pair *)
+Theorem send_encrypted_only_ciphertext now c t :
+  isOTREnabled (c_policies c) = true -> c_msgState c = c_encrypted ->
+  Forall is_error_reply (c_injections c) ->
+  let '(c', r) := step now c (CSend t) in
+  forall w, In w (r_out r) ->
+    is_error_reply w \/
+    exists ver stag rtag d keys,
+      w = WEnc ver stag rtag (EData d) /\
+      sessionKeysFor (c_keys c) (ourKeyID (c_keys c) - 1) (theirKeyID (c_keys c)) = Ok keys /\
+      af_enckey (d_fields d) = sendingKey keys /\ d_mackey d = sendingKey keys /\ d_enc_intact d = true /\
+      p_text (d_payload d) = t.
+Proof.
+  intros Hp Hs Hi. rewrite Forall_forall in Hi.
+  unfold step, send. msimpl. rewrite Hp, Hs. cbn [negb].
+  change (c_encrypted =? c_plainText) with false. change (c_encrypted =? c_encrypted) with true. msimpl.
+  unfold createSerializedDataMessage, genDataMsgWithFlag. msimpl. rewrite Hs.
+  change (c_encrypted =? c_encrypted) with true. cbn [negb]. msimpl.
+  destruct (sessionKeysFor (c_keys c) (ourKeyID (c_keys c) - 1) (theirKeyID (c_keys c))) as [keys|e|] eqn:Ek; msimpl.
+  - pose proof (messageHeader_frame c []) as F. destruct (messageHeader c []) as [[h c1] ev1].
+    destruct F as [Fk [Fs [Fi [Fe [Fh _]]]]]. subst ev1. msimpl. rewrite Fk.
+    destruct (genDataMsg (c_keys c) h c_messageFlagNormal {| p_text := t; p_tlvs := [] |}) as [[[d k'] x]|e|] eqn:Eg; msimpl.
+    + unfold updateLastSent, finishSend, withInjects. msimpl. cbn [r_out]. intros w [<-|Hw].
+      * right. destruct (genDataMsg_spec _ _ _ _ _ _ _ Eg) as [keys' [Ek' [H1 [H2 [_ [H4 [H5 _]]]]]]].
+        rewrite Ek in Ek'. injection Ek' as <-.
+        exists (h_ver h), (h_stag h), (h_rtag h), d, keys. rewrite H4. repeat split; auto.
+      * left. apply Hi. cbn in Hw. rewrite Fi in Hw. exact Hw.
+    + unfold generatePotentialErrorMessage, finishSend, withInjects. msimpl. rewrite Fh.
+      destruct (c_errHandler c); msimpl; cbn [r_out]; intros w Hw; left; cbn in Hw; rewrite ?Fi in Hw.
+      * apply in_app_or in Hw as [Hw|[<-|[]]]; [apply Hi; exact Hw | eexists; reflexivity].
+      * apply Hi; exact Hw.
+    + unfold generatePotentialErrorMessage, finishSend, withInjects. msimpl. rewrite Fh.
+      destruct (c_errHandler c); msimpl; cbn [r_out]; intros w Hw; left; cbn in Hw; rewrite ?Fi in Hw.
+      * apply in_app_or in Hw as [Hw|[<-|[]]]; [apply Hi; exact Hw | eexists; reflexivity].
+      * apply Hi; exact Hw.
+  - unfold generatePotentialErrorMessage, finishSend, withInjects. msimpl.
+    destruct (c_errHandler c); msimpl; cbn [r_out]; intros w Hw; left; cbn in Hw.
+    + apply in_app_or in Hw as [Hw|[<-|[]]]; [apply Hi; exact Hw | eexists; reflexivity].
+    + apply Hi; exact Hw.
+  - unfold generatePotentialErrorMessage, finishSend, withInjects. msimpl.
+    destruct (c_errHandler c); msimpl; cbn [r_out]; intros w Hw; left; cbn in Hw.
+    + apply in_app_or in Hw as [Hw|[<-|[]]]; [apply Hi; exact Hw | eexists; reflexivity].
+    + apply Hi; exact Hw.
+Qed.
+
+(* ---------------- C18: the three places where the message state changes ---------------- *)
+Theorem akeHasFinished_spec now c ev :
+  let '(_, c', ev') := akeHasFinished now c ev in
+  c_msgState c' = c_encrypted /\
+  ev' = ev ++ [evSec (if c_msgState c =? c_encrypted then c_StillSecure else c_GoneSecure)] /\
+  c_ssid c' = a_ssid (the_ake c) /\ c_sentRevealSig c' = a_sentRevealSig (the_ake c) /\
+  c_lastMsgStateChange c' = Some now /\
+  ourKeyID (c_keys c') = ourKeyID (a_keys (the_ake c)) + 1 /\ theirKeyID (c_keys c') = theirKeyID (a_keys (the_ake c)) /\
+  ourPrevious (c_keys c') = ourCurrent (a_keys (the_ake c)) /\
+  counters (c_keys c') = counters (a_keys (the_ake c)) /\ macHistory (c_keys c') = macHistory (a_keys (the_ake c)).
+Proof. unfold akeHasFinished, fresh, draw. msimpl. repeat split. Qed.
+
+(* building and sending a data message emits no event and changes neither message state nor AKE context *)
+Lemma csdm_frame now t flag tlvs c ev :
+  let '(res, c', ev') := createSerializedDataMessage now t flag tlvs c ev in
+  ev' = ev /\ c_msgState c' = c_msgState c /\ c_ake c' = c_ake c /\ c_policies c' = c_policies c.
+Proof.
+  unfold createSerializedDataMessage, genDataMsgWithFlag. msimpl.
+  destruct (negb (c_msgState c =? c_encrypted)); msimpl; [repeat split|].
+  destruct (sessionKeysFor (c_keys c) (ourKeyID (c_keys c) - 1) (theirKeyID (c_keys c))); msimpl; [|repeat split..].
+  unfold messageHeader, generateInstanceTag, fresh, draw. msimpl.
+  destruct (c_version c =? 3); msimpl.
+  - destruct (negb (c_ourTag c =? 0)); msimpl;
+      match goal with |- context [genDataMsg ?k ?h ?f ?p] => destruct (genDataMsg k h f p) as [[[d k'] x]| |] end;
+      msimpl; unfold updateLastSent; msimpl; repeat split.
+  - match goal with |- context [genDataMsg ?k ?h ?f ?p] => destruct (genDataMsg k h f p) as [[[d k'] x]| |] end;
+      msimpl; unfold updateLastSent; msimpl; repeat split.
+Qed.
+
+Theorem end_spec now c :
+  let '(c', r) := step now c CEnd in
+  c_msgState c' = c_plainText /\ c_ake c' = None /\
+  (In (evSec c_GoneInsecure) (r_events r) <-> c_msgState c = c_encrypted) /\
+  ~ In (evSec c_GoneSecure) (r_events r) /\
+  ourCurrent (c_keys c') = None /\ ourPrevious (c_keys c') = None /\ theirPrevious (c_keys c') = None /\
+  counters (c_keys c') = [] /\ macHistory (c_keys c') = [] /\ oldMACKeys (c_keys c') = [] /\
+  (c_msgState c <> c_plainText -> c_resendMsgs c' = [] /\ c_mayRetransmit c' = c_noRetransmit).
+Proof.
+  unfold step, endConv. msimpl.
+  destruct (c_msgState c =? c_encrypted) eqn:Ee.
+  - apply N.eqb_eq in Ee. msimpl.
+    pose proof (csdm_frame now [] c_messageFlagIgnoreUnreadable [TDisconnected] (c <| c_smp := smp_wiped |>) []) as F.
+    destruct (createSerializedDataMessage now [] c_messageFlagIgnoreUnreadable [TDisconnected] (c <| c_smp := smp_wiped |>) [])
+      as [[res c1] ev1].
+    destruct F as [-> [F1 [F2 F3]]]. cbn [c_msgState] in F1.
+    rewrite Ee. change (c_encrypted =? c_plainText) with false.
+    destruct res as [[ws x]|e|]; msimpl; cbn; repeat split; auto; try tauto; try discriminate; intros [H|[]]; discriminate.
+  - assert (Hne : c_msgState c <> c_encrypted) by (apply N.eqb_neq; exact Ee). msimpl.
+    destruct (c_msgState c =? c_plainText) eqn:Ep; msimpl; cbn; repeat split; auto; try tauto; try discriminate.
+    all: try (apply N.eqb_eq in Ep; congruence).
+Qed.
+
+(* ---------------- C01: what accepting an encrypted signature implies ---------------- *)
+Lemma akey_eqb_eq a b : akey_eqb a b = true <-> a = b.
+Proof.
+  unfold akey_eqb. destruct a as [s1 w1], b as [s2 w2]; cbn. rewrite andb_true_iff, shared_eqb_eq, N.eqb_eq. split.
+  - intros [-> ->]; reflexivity.
+  - intros H; inversion H; auto.
+Qed.
+Lemma mbval_eqb_eq a b : mbval_eqb a b = true <-> a = b.
+Proof.
+  unfold mbval_eqb. destruct a, b; cbn. rewrite !andb_true_iff, akey_eqb_eq, !N.eqb_eq. split.
+  - intros [[[[-> ->] ->] ->] ->]; reflexivity.
+  - intros H; inversion H; subst; repeat split; reflexivity.
+Qed.
+Lemma encsig_eqb_eq a b : encsig_eqb a b = true <-> a = b.
+Proof.
+  unfold encsig_eqb. destruct a, b; cbn. rewrite !andb_true_iff, akey_eqb_eq, !N.eqb_eq, mbval_eqb_eq, Bool.eqb_true_iff. split.
+  - intros [[[[[-> ->] ->] ->] ->] ->]; reflexivity.
+  - intros H; inversion H; subst; repeat split; reflexivity.
+Qed.
+
+Definition ake_shared (c : conv) : shared := match a_shared (the_ake c) with Some s => s | None => mk_shared 0 0 end.
+Definition ake_ours (c : conv) : eid := match a_exp (the_ake c) with Some e => e | None => 0 end.
+Definition ake_theirs (c : conv) : eid := match a_their (the_ake c) with Some e => e | None => 0 end.
+
+(* the peer's long-term key is adopted only if: the MAC over the encrypted signature verifies under m2 of the
+   shared secret, it decrypts under c, and the signature inside was made by the owner of the very key it
+   carries, over M = (m1; their DH value; our DH value; that key; key id).  Otherwise nothing changes. *)
+Theorem processEncryptedSig_spec es mac base c ev :
+  let '(ok, c', ev') := processEncryptedSig es mac base c ev in
+  ev' = ev /\
+  (ok = true ->
+     em_intact mac = true /\ em_key mac = {| ak_sh := ake_shared c; ak_which := base + 2 |} /\ em_over mac = es /\
+     es_ckey es = {| ak_sh := ake_shared c; ak_which := base |} /\ es_parses es = true /\
+     es_signer es = es_pub es /\
+     es_over es = {| mb_key := {| ak_sh := ake_shared c; ak_which := base + 1 |};
+                     mb_gfirst := ake_theirs c; mb_gsecond := ake_ours c; mb_pub := es_pub es; mb_keyid := es_keyid es |} /\
+     c_theirKey c' = Some (es_pub es) /\ c_msgState c' = c_msgState c /\ c_ssid c' = c_ssid c) /\
+  (ok = false -> c' = c).
+Proof.
+  unfold processEncryptedSig. msimpl. fold (ake_shared c) (ake_ours c) (ake_theirs c).
+  destruct (em_intact mac && akey_eqb (em_key mac) {| ak_sh := ake_shared c; ak_which := base + 2 |} && encsig_eqb (em_over mac) es) eqn:E1;
+    cbn [negb]; msimpl; [|split; [reflexivity | split; [discriminate | reflexivity]]].
+  destruct (akey_eqb (es_ckey es) {| ak_sh := ake_shared c; ak_which := base |} && es_parses es) eqn:E2;
+    cbn [negb]; msimpl; [|split; [reflexivity | split; [discriminate | reflexivity]]].
+  match goal with |- context [mbval_eqb (es_over es) ?x] => set (expected := x) end.
+  destruct ((es_signer es =? es_pub es) && mbval_eqb (es_over es) expected) eqn:E3;
+    cbn [negb]; msimpl; [|split; [reflexivity | split; [discriminate | reflexivity]]].
+  unfold set_ake. msimpl. split; [reflexivity|]. split; [|discriminate]. intros _.
+  apply andb_true_iff in E1 as [E1 E1c]. apply andb_true_iff in E1 as [E1a E1b].
+  apply andb_true_iff in E2 as [E2a E2b]. apply andb_true_iff in E3 as [E3a E3b].
+  apply akey_eqb_eq in E1b. apply encsig_eqb_eq in E1c. apply akey_eqb_eq in E2a.
+  apply N.eqb_eq in E3a. apply mbval_eqb_eq in E3b.
+  repeat split; auto.
+Qed.
+
+(* C01: an out-of-range DH value is never accepted *)
+Theorem out_of_range_group_value_rejected e : junk_base <= e -> e < junk_base + 16 -> isGroupElement e = false.
+Proof.
+  intros H1 H2. unfold isGroupElement. apply orb_false_iff. split; [apply N.ltb_ge; exact H1 | apply N.leb_gt; exact H2].
+Qed.
